@@ -39,7 +39,7 @@ type ctx struct {
 }
 
 func main() {
-	mode := flag.String("mode", "sqlite", "sqlite|mysql|mysql-my57|mysql-my80|mysql-maria|mysql-history|postgres|postgres-ns|postgres-history")
+	mode := flag.String("mode", "sqlite", "sqlite|mysql|mysql-my57|mysql-my80|mysql-maria|mysql-history|postgres|postgres-ns|postgres-history|cli")
 	tier := flag.String("tier", "quick", "quick|thorough")
 	outDir := flag.String("out", "", "output directory")
 	flag.Parse()
@@ -52,6 +52,12 @@ func main() {
 		// the connection-backed PostgreSQL differ with a schema scope (conn.schema = "public")
 		c.differ, c.tie = scopedPGDiffer("public"), true
 		*mode = "postgres"
+	}
+	if *mode == "cli" {
+		c.p = newProfile("sqlite")
+		c.cli(*tier == "thorough")
+		c.w.Close()
+		return
 	}
 	if *mode == "mysql-history" || *mode == "postgres-history" {
 		c.history(strings.TrimSuffix(*mode, "-history"), *tier == "thorough")
@@ -106,6 +112,9 @@ func main() {
 		c.unnamed()
 	}
 	c.variantCases()
+	if !c.p.scoped {
+		c.numbers()
+	}
 	c.wild(thorough)
 	c.w.Close()
 }
